@@ -78,6 +78,23 @@ def strip_lean_comments(src):
     return src
 
 
+def local_imports(module):
+    """files of this project that `module` imports, transitively (Props/XrayProofs/XrayModel/Generated/Driver)"""
+    seen, todo, files = set(), [module], []
+    while todo:
+        m = todo.pop()
+        if m in seen:
+            continue
+        seen.add(m)
+        path = os.path.join(LEAN, *m.split(".")) + ".lean"
+        if not os.path.exists(path):
+            continue
+        files.append(path)
+        for mm in re.finditer(r"^\s*(?:public\s+)?import\s+([A-Za-z0-9_.]+)", open(path).read(), re.M):
+            todo.append(mm.group(1))
+    return files
+
+
 def grep_forbidden(paths):
     hits = []
     for p in paths:
@@ -241,8 +258,7 @@ class Check:
         self.discharged = len(thms) - len(bad)
         for n, a in bad.items():
             self.broken.append({"kind": "axioms", "theorem": n, "axioms": a})
-        props_file = os.path.join(LEAN, "Props", f"{prop}.lean")
-        hits = grep_forbidden([props_file] + [os.path.join(LEAN, "XrayProofs", f) for f in os.listdir(os.path.join(LEAN, "XrayProofs"))])
+        hits = grep_forbidden(local_imports(f"Props.{prop}"))
         if hits:
             self.broken.append({"kind": "forbidden-token", "hits": hits})
         if self.tier == "thorough":
